@@ -166,6 +166,53 @@ Proof.
   - apply all_lt_weaken with (a := 256); [lia | exact H].
 Qed.
 
+(* the decoder fed chunk by chunk: running it over a ++ b is feeding a, then running it over b
+   from the state a left; feeding is compositional *)
+Lemma sm_feed_app : forall be a b lb ls,
+  utf16_sm be (a ++ b) lb ls =
+  fst (utf16_feed be a lb ls) ++
+  utf16_sm be b (fst (snd (utf16_feed be a lb ls))) (snd (snd (utf16_feed be a lb ls))).
+Proof.
+  induction a as [|x a IH]; intros b lb ls; [reflexivity|].
+  cbn [app]. destruct lb as [lead|]; cbn [utf16_sm utf16_feed]; [|apply IH].
+  destruct (is_high (if be then lead * 256 + x else x * 256 + lead));
+    [| destruct (is_low (if be then lead * 256 + x else x * 256 + lead))];
+    destruct (ls =? 0); cbn [fst snd app]; rewrite IH; reflexivity.
+Qed.
+Lemma feed_app : forall be a b lb ls,
+  utf16_feed be (a ++ b) lb ls =
+  (fst (utf16_feed be a lb ls) ++
+   fst (utf16_feed be b (fst (snd (utf16_feed be a lb ls))) (snd (snd (utf16_feed be a lb ls)))),
+   snd (utf16_feed be b (fst (snd (utf16_feed be a lb ls))) (snd (snd (utf16_feed be a lb ls))))).
+Proof.
+  induction a as [|x a IH]; intros b lb ls.
+  - cbn [app utf16_feed fst snd]. destruct (utf16_feed be b lb ls); reflexivity.
+  - cbn [app]. destruct lb as [lead|]; cbn [utf16_feed]; [|apply IH].
+    destruct (is_high (if be then lead * 256 + x else x * 256 + lead));
+      [| destruct (is_low (if be then lead * 256 + x else x * 256 + lead))];
+      destruct (ls =? 0); cbn [fst snd app]; rewrite IH; reflexivity.
+Qed.
+
+(* the decoder of one string, fed with the 16-bit units of a segment *)
+Definition feed_units (ds : dec_state) (us : list N) : list N * dec_state :=
+  utf16_feed false (flat_map le16 us) (fst ds) (snd ds).
+Definition flush (ds : dec_state) : list N := utf16_sm false [] (fst ds) (snd ds).
+
+Lemma feed_units_app : forall ds a b,
+  feed_units ds (a ++ b) =
+  (fst (feed_units ds a) ++ fst (feed_units (snd (feed_units ds a)) b),
+   snd (feed_units (snd (feed_units ds a)) b)).
+Proof. intros. unfold feed_units. rewrite flat_map_app, feed_app. reflexivity. Qed.
+
+(* feeding all the units of a string to a fresh decoder and finishing it is UTF-16 decoding of
+   the whole string, wherever the segments were cut *)
+Lemma feed_units_flush : forall us, all_lt 65536 us = true ->
+  fst (feed_units dec_init us) ++ flush (snd (feed_units dec_init us)) = utf16_decode us.
+Proof.
+  intros us H. unfold feed_units, flush, dec_init. cbn [fst snd].
+  rewrite <- sm_feed_app, app_nil_r. apply sm_le16; exact H.
+Qed.
+
 (* decoding segment by segment: only a cut between a lead and a trail surrogate matters *)
 Lemma ends_high_cons2 : forall u v a, ends_high (u :: v :: a) = ends_high (v :: a).
 Proof. intros. unfold ends_high. reflexivity. Qed.
@@ -320,22 +367,22 @@ Lemma len_seg_bytes : forall hb us,
   len (seg_bytes hb us) = if hb then 2 * len us else len us.
 Proof. intros [|] us; cbn [seg_bytes]; [apply len_flat_le16 | reflexivity]. Qed.
 
-Lemma seg_decode : forall hb us, seg_ok hb us = true -> all_lt 65536 us = true ->
-  (if hb then enc_decode (flat_map le16 us) else enc_decode (widen us)) = utf16_decode us.
+(* the bytes handed to the decoder for one segment are the little-endian bytes of its units *)
+Lemma seg_fed : forall hb us, seg_ok hb us = true ->
+  (if hb then seg_bytes hb us else widen (seg_bytes hb us)) = flat_map le16 us.
 Proof.
-  intros [|] us Hs Hlt.
-  - apply enc_decode_le16; exact Hlt.
-  - cbn [seg_ok orb] in Hs. rewrite (enc_decode_widen _ Hs), (decode_small _ Hs). reflexivity.
+  intros [|] us Hs; cbn [seg_bytes]; [reflexivity|].
+  cbn [seg_ok orb] in Hs. apply widen_le16; exact Hs.
 Qed.
 
 (* the segment is followed by other bytes of the same record and holds all the characters
    that are still expected *)
-Lemma decode_to_exact : forall hb us d, seg_ok hb us = true -> all_lt 65536 us = true ->
-  decode_to (seg_bytes hb us ++ d) (len us) (Some hb) =
-  (len us, len (seg_bytes hb us), utf16_decode us).
+Lemma segment_exact : forall hb us d, seg_ok hb us = true ->
+  segment (seg_bytes hb us ++ d) (len us) (Some hb) =
+  (len us, len (seg_bytes hb us), flat_map le16 us).
 Proof.
-  intros hb us d Hs Hlt. unfold decode_to. cbn [high_byte_cp1200].
-  rewrite len_app, len_seg_bytes. rewrite <- (seg_decode hb us Hs Hlt).
+  intros hb us d Hs. unfold segment. cbn [high_byte_cp1200].
+  rewrite len_app, len_seg_bytes. rewrite <- (seg_fed hb us Hs).
   destruct hb; cbn [seg_bytes].
   - replace (N.min ((2 * len us + len d) / 2) (len us)) with (len us) by lia.
     rewrite <- len_flat_le16, take_len_app. reflexivity.
@@ -344,13 +391,12 @@ Proof.
 Qed.
 
 (* the segment ends the record and more characters are expected *)
-Lemma decode_to_short : forall hb us n, seg_ok hb us = true -> all_lt 65536 us = true ->
-  len us <= n ->
-  decode_to (seg_bytes hb us) n (Some hb) =
-  (len us, len (seg_bytes hb us), utf16_decode us).
+Lemma segment_short : forall hb us n, seg_ok hb us = true -> len us <= n ->
+  segment (seg_bytes hb us) n (Some hb) =
+  (len us, len (seg_bytes hb us), flat_map le16 us).
 Proof.
-  intros hb us n Hs Hlt Hn. unfold decode_to. cbn [high_byte_cp1200].
-  rewrite len_seg_bytes. rewrite <- (seg_decode hb us Hs Hlt).
+  intros hb us n Hs Hn. unfold segment. cbn [high_byte_cp1200].
+  rewrite len_seg_bytes. rewrite <- (seg_fed hb us Hs).
   destruct hb; cbn [seg_bytes].
   - replace (N.min (2 * len us / 2) n) with (len us) by lia.
     rewrite <- len_flat_le16, take_all. reflexivity.
@@ -358,19 +404,29 @@ Proof.
     rewrite take_all. reflexivity.
 Qed.
 
+(* decode_to (a decoder of its own, finished at once) on a string held by one segment *)
+Lemma decode_to_exact : forall hb us d, seg_ok hb us = true -> all_lt 65536 us = true ->
+  decode_to (seg_bytes hb us ++ d) (len us) (Some hb) =
+  (len us, len (seg_bytes hb us), utf16_decode us).
+Proof.
+  intros hb us d Hs Hlt. unfold decode_to, decode_segment_last.
+  rewrite (segment_exact hb us d Hs). unfold dec_init. cbn [fst snd].
+  rewrite (sm_le16 us Hlt). reflexivity.
+Qed.
+
 (* ------------------------------------------------------------------------------------- *)
 (** * read_dbcs across the cuts of the character data                                     *)
 (* ------------------------------------------------------------------------------------- *)
 
-Lemma dbcs_loop_eq : forall conts data n hb acc,
-  dbcs_loop conts data n hb acc =
-  let '(l, at_, str) := decode_to data n (Some hb) in
-  if n - l =? 0 then Ok (acc ++ str, (drop at_ data, conts))
+Lemma dbcs_loop_eq : forall conts data n hb ds acc,
+  dbcs_loop conts data n hb ds acc =
+  let '(l, at_, str, ds') := decode_segment ds data n (Some hb) in
+  if n - l =? 0 then Ok (acc ++ str, ds', (drop at_ data, conts))
   else match conts with
        | [] => Err E_EOS
        | c :: cs => match c with
-                    | [] => Panic
-                    | f :: c' => dbcs_loop cs c' (n - l) (N.odd f) (acc ++ str)
+                    | [] => Err E_CONT
+                    | f :: c' => dbcs_loop cs c' (n - l) (N.odd f) ds' (acc ++ str)
                     end
        end.
 Proof. destruct conts; reflexivity. Qed.
@@ -378,64 +434,68 @@ Proof. destruct conts; reflexivity. Qed.
 Lemma odd_b2n : forall b, N.odd (b2n b) = b.
 Proof. destruct b; reflexivity. Qed.
 
-(* the text read_dbcs builds: every segment decoded on its own *)
-Fixpoint seg_decode_all (us : list N) (cuts : list (nat * bool)) : list N :=
-  match cuts with
-  | [] => utf16_decode us
-  | (n, _) :: cs => utf16_decode (firstn n us) ++ seg_decode_all (skipn n us) cs
-  end.
-
-Lemma seg_decode_all_known_none : forall cuts us, known_chars us cuts = None ->
-  seg_decode_all us cuts = utf16_decode us.
-Proof.
-  induction cuts as [|[n hb] cs IH]; intros us Hk; [reflexivity|].
-  cbn [known_chars] in Hk. cbn [seg_decode_all].
-  destruct (ends_high (firstn n us) && starts_low (skipn n us)) eqn:Ecut; [discriminate|].
-  rewrite (IH _ Hk), <- (decode_app _ _ Ecut), firstn_skipn. reflexivity.
-Qed.
-
-Lemma dbcs_gen : forall cuts us hb rest acc,
-  cuts_legal us hb cuts = true -> all_lt 65536 us = true -> us <> [] ->
+(* the loop feeds the units of every segment, 8-bit ones widened, to the one decoder of the
+   string and stops exactly behind the character data *)
+Lemma dbcs_gen : forall cuts us hb rest ds acc,
+  cuts_legal us hb cuts = true -> us <> [] ->
   dbcs_loop (snd (frags (char_items us hb cuts ++ rest)))
-            (fst (frags (char_items us hb cuts ++ rest))) (len us) hb acc
-  = Ok (acc ++ seg_decode_all us cuts, frags rest).
+            (fst (frags (char_items us hb cuts ++ rest))) (len us) hb ds acc
+  = Ok (acc ++ fst (feed_units ds us), snd (feed_units ds us), frags rest).
 Proof.
-  induction cuts as [|[n hb'] cs IH]; intros us hb rest acc Hl Hlt Hne.
-  - cbn [cuts_legal] in Hl. cbn [char_items app seg_decode_all]. rewrite frags_B. cbn [fst snd].
-    rewrite dbcs_loop_eq, (decode_to_exact hb us _ Hl Hlt).
+  induction cuts as [|[n hb'] cs IH]; intros us hb rest ds acc Hl Hne.
+  - cbn [cuts_legal] in Hl. cbn [char_items app]. rewrite frags_B. cbn [fst snd].
+    rewrite dbcs_loop_eq. unfold decode_segment. rewrite (segment_exact hb us _ Hl).
+    fold (feed_units ds us).
     replace (len us - len us =? 0) with true by lia.
     rewrite drop_len_app, pair_eta. reflexivity.
   - cbn [cuts_legal] in Hl.
     apply andb_true_iff in Hl. destruct Hl as [Hl Hl3].
     apply andb_true_iff in Hl. destruct Hl as [Hn Hseg].
-    cbn [char_items app seg_decode_all]. rewrite frags_B, frags_C, frags_B. cbn [fst snd app].
+    cbn [char_items app]. rewrite frags_B, frags_C, frags_B. cbn [fst snd app].
     rewrite app_nil_r.
     assert (Hfl : len (firstn n us) = N.of_nat n).
     { unfold len. rewrite firstn_length. lia. }
     assert (Hsl : len (skipn n us) = len us - N.of_nat n).
     { unfold len. rewrite skipn_length. lia. }
     assert (Hlen : N.of_nat n < len us) by (unfold len; lia).
-    rewrite dbcs_loop_eq.
-    rewrite (decode_to_short hb (firstn n us) (len us) Hseg (all_lt_firstn _ n _ Hlt));
-      [| lia].
+    rewrite dbcs_loop_eq. unfold decode_segment.
+    rewrite (segment_short hb (firstn n us) (len us) Hseg); [| lia].
+    fold (feed_units ds (firstn n us)).
     rewrite Hfl. replace (len us - N.of_nat n =? 0) with false by lia.
     rewrite odd_b2n. rewrite <- Hsl.
-    rewrite (IH (skipn n us) hb' rest (acc ++ utf16_decode (firstn n us)) Hl3
-                (all_lt_skipn _ n _ Hlt)).
-    + rewrite <- app_assoc. reflexivity.
+    rewrite (IH (skipn n us) hb' rest (snd (feed_units ds (firstn n us)))
+                (acc ++ fst (feed_units ds (firstn n us))) Hl3).
+    + pose proof (feed_units_app ds (firstn n us) (skipn n us)) as HA.
+      rewrite firstn_skipn in HA. rewrite HA. cbn [fst snd].
+      rewrite <- app_assoc. reflexivity.
     + intros Hnil. rewrite Hnil in Hsl. cbn in Hsl. lia.
 Qed.
 
-Lemma dbcs_ok : forall cuts us hb rest acc,
-  cuts_legal us hb cuts = true -> known_chars us cuts = None ->
-  all_lt 65536 us = true -> us <> [] ->
-  dbcs_loop (snd (frags (char_items us hb cuts ++ rest)))
-            (fst (frags (char_items us hb cuts ++ rest))) (len us) hb acc
-  = Ok (acc ++ utf16_decode us, frags rest).
+(* read_dbcs on the character data of a string, whatever its cuts and packings: the stored text *)
+Lemma read_dbcs_ok : forall cuts us hb rest,
+  cuts_legal us hb cuts = true -> all_lt 65536 us = true ->
+  read_dbcs (fst (frags (char_items us hb cuts ++ rest)),
+             snd (frags (char_items us hb cuts ++ rest))) (len us) hb
+  = Ok (utf16_decode us, frags rest).
 Proof.
-  intros cuts us hb rest acc Hl Hk Hlt Hne.
-  rewrite (dbcs_gen cuts us hb rest acc Hl Hlt Hne), (seg_decode_all_known_none _ _ Hk).
-  reflexivity.
+  intros cuts us hb rest Hcuts Hlt. unfold read_dbcs. destruct us as [|u0 us'].
+  - (* no characters: the loop is not entered; there can be no cut *)
+    rewrite len_nil. change (0 =? 0) with true. cbv iota. cbn [obind].
+    destruct cuts as [|[n hb'] cs].
+    + cbn [char_items seg_bytes app utf16_decode].
+      destruct hb; cbn [flat_map seg_bytes];
+        rewrite frags_B; cbn [app fst snd]; rewrite !pair_eta; reflexivity.
+    + cbn [cuts_legal length] in Hcuts. exfalso.
+      apply andb_true_iff in Hcuts. destruct Hcuts as [Hc _].
+      apply andb_true_iff in Hc. destruct Hc as [Hc _]. lia.
+  - replace (len (u0 :: us') =? 0) with false by (rewrite len_cons; lia).
+    cbn [fst snd].
+    rewrite (dbcs_gen cuts (u0 :: us') hb rest dec_init [] Hcuts); [| discriminate].
+    cbn [obind app].
+    assert (Hfl : decode_segment_last (snd (feed_units dec_init (u0 :: us'))) [] 0 (Some hb) =
+                  (0, 0, flush (snd (feed_units dec_init (u0 :: us'))))).
+    { destruct hb; reflexivity. }
+    rewrite Hfl. rewrite (feed_units_flush _ Hlt). reflexivity.
 Qed.
 
 (* ------------------------------------------------------------------------------------- *)
@@ -473,6 +533,11 @@ Proof.
   replace (4 <=? len d + 1 + 1 + 1 + 1) with true by lia. reflexivity.
 Qed.
 
+Lemma len_le16_ge : forall x d, (len (le16 x ++ d) <? 2) = false.
+Proof. intros. unfold le16. cbn [app]. rewrite !len_cons. lia. Qed.
+Lemma len_le32_ge : forall x d, (len (le32 x ++ d) <? 4) = false.
+Proof. intros. unfold le32. cbn [app]. rewrite !len_cons. lia. Qed.
+
 Definition runs_count (sl : str_layout) : N :=
   match sl_runs sl with Some l => len l | None => 0 end.
 Definition ext_count (sl : str_layout) : N :=
@@ -486,16 +551,16 @@ Proof.
   intros us [cb hb0 cuts runs ext tc] d Hr He.
   unfold runs_count, ext_count in *. cbn [sl_runs sl_ext sl_hb0] in *.
   unfold str_header. cbn [sl_runs sl_ext sl_hb0].
-  unfold read_string_header.
+  unfold read_string_header, read_c_run, read_cb_ext_rst.
   rewrite <- !app_assoc. rewrite read_u16_le16. cbn [obind].
   cbn [le16 app nth]. change (drop 3 ?x) with (skipn 3 x). cbn [skipn].
   rewrite flags_odd, flags_bit2, flags_bit3.
   destruct runs as [rl|]; destruct ext as [el|]; cbn [is_some].
-  - rewrite read_u16_le16, slice_from_le16. cbn [obind].
-    rewrite read_i32_le32, slice_from_le32 by lia. cbn [obind].
+  - rewrite len_le16_ge, read_u16_le16, slice_from_le16. cbn [obind].
+    rewrite len_le32_ge, read_i32_le32, slice_from_le32 by lia. cbn [obind].
     rewrite i32_as_usize_pos. reflexivity.
-  - rewrite read_u16_le16, slice_from_le16. cbn [obind app]. reflexivity.
-  - cbn [obind app]. rewrite read_i32_le32, slice_from_le32 by lia. cbn [obind].
+  - rewrite len_le16_ge, read_u16_le16, slice_from_le16. cbn [obind app]. reflexivity.
+  - cbn [obind app]. rewrite len_le32_ge, read_i32_le32, slice_from_le32 by lia. cbn [obind].
     rewrite i32_as_usize_pos. reflexivity.
   - reflexivity.
 Qed.
@@ -547,10 +612,10 @@ Qed.
 
 (* reading one string consumes exactly its items: header, character data with its cuts,
    formatting runs and extended block with theirs — and nothing of what follows *)
-Theorem read_string_gen : forall us sl rest,
+Theorem read_string_ok : forall us sl rest,
   legal_string us sl = true ->
   read_rich_extended_string (frags (string_items us sl ++ rest)) =
-  Ok (seg_decode_all us (sl_cuts sl), frags rest).
+  Ok (utf16_decode us, frags rest).
 Proof.
   intros us sl rest Hl.
   destruct (legal_string_parts us sl Hl) as (Hcch & Hlt & Hcuts & Hruns & Hext & Htail).
@@ -570,24 +635,7 @@ Proof.
   rewrite (read_header_ok us sl _ Hruns Hext). cbn [obind].
   unfold body. rewrite <- app_assoc.
   set (tl := chunk_items (tail_bytes sl) (sl_tail_cuts sl) ++ rest).
-  assert (Hdb : read_dbcs (fst (frags (char_items us (sl_hb0 sl) (sl_cuts sl) ++ tl)),
-                           snd (frags (char_items us (sl_hb0 sl) (sl_cuts sl) ++ tl)))
-                          (len us) (sl_hb0 sl) = Ok (seg_decode_all us (sl_cuts sl), frags tl)).
-  { unfold read_dbcs. destruct us as [|u0 us'].
-    - (* no characters: the loop is not entered; there can be no cut *)
-      rewrite len_nil. change (0 =? 0) with true. cbv iota.
-      destruct (sl_cuts sl) as [|[n hb'] cs].
-      + cbn [char_items seg_bytes app seg_decode_all utf16_decode].
-        destruct (sl_hb0 sl); cbn [flat_map seg_bytes];
-          rewrite frags_B; cbn [app fst snd]; rewrite !pair_eta; reflexivity.
-      + cbn [cuts_legal length] in Hcuts. exfalso.
-        apply andb_true_iff in Hcuts. destruct Hcuts as [Hc _].
-        apply andb_true_iff in Hc. destruct Hc as [Hc _]. lia.
-    - replace (len (u0 :: us') =? 0) with false by (rewrite len_cons; lia).
-      cbn [fst snd].
-      rewrite (dbcs_gen (sl_cuts sl) (u0 :: us') (sl_hb0 sl) tl [] Hcuts Hlt);
-        [reflexivity | discriminate]. }
-  rewrite Hdb. clear Hdb. cbn [obind].
+  rewrite (read_dbcs_ok (sl_cuts sl) us (sl_hb0 sl) tl Hcuts Hlt). cbn [obind].
   destruct (frags tl) as [d cs] eqn:Etl.
   pose proof (skip_add cs d (runs_count sl * 4) (ext_count sl)) as Hadd.
   rewrite <- len_tail_bytes, <- Etl in Hadd. unfold tl in Hadd.
@@ -597,30 +645,18 @@ Proof.
   rewrite Hadd. reflexivity.
 Qed.
 
-Theorem read_string_ok : forall us sl rest,
-  legal_string us sl = true -> known_string us sl = None ->
-  read_rich_extended_string (frags (string_items us sl ++ rest)) =
-  Ok (utf16_decode us, frags rest).
-Proof.
-  intros us sl rest Hl Hk. rewrite (read_string_gen us sl rest Hl).
-  unfold known_string in Hk. rewrite (seg_decode_all_known_none _ _ Hk). reflexivity.
-Qed.
-
 (* ------------------------------------------------------------------------------------- *)
 (** * the table                                                                           *)
 (* ------------------------------------------------------------------------------------- *)
 
 Definition str_items_of (p : ustring * str_layout) : list item := string_items (fst p) (snd p).
 
-Definition seg_decode_str (p : ustring * str_layout) : list N :=
-  seg_decode_all (units (fst p)) (sl_cuts (snd p)).
-
-Lemma sst_loop_gen : forall strs lays rest fuel acc,
+Lemma sst_loop_ok : forall strs lays rest fuel acc,
   length strs = length lays ->
   forallb (fun p => legal_string (fst p) (snd p)) (combine strs lays) = true ->
   (length strs < fuel)%nat ->
   sst_loop fuel (len strs) (frags (flat_map str_items_of (combine strs lays) ++ rest)) acc
-  = Ok (rev acc ++ map seg_decode_str (combine strs lays)).
+  = Ok (rev acc ++ map utf16_decode strs).
 Proof.
   induction strs as [|s strs IH]; intros lays rest fuel acc Hlen Hleg Hfuel.
   - destruct fuel as [|f]; [lia|]. cbn [sst_loop map combine]. rewrite len_nil.
@@ -632,37 +668,11 @@ Proof.
     cbn [sst_loop]. replace (len (s :: strs) =? 0) with false by (rewrite len_cons; lia).
     cbn [combine flat_map]. unfold str_items_of at 1. cbn [fst snd].
     rewrite <- app_assoc.
-    rewrite (read_string_gen s sl _ Hleg1). cbn [obind].
+    rewrite (read_string_ok s sl _ Hleg1). cbn [obind].
     replace (len (s :: strs) - 1) with (len strs) by (rewrite len_cons; lia).
-    rewrite (IH lays rest f (seg_decode_all s (sl_cuts sl) :: acc)); cbn [length] in *;
+    rewrite (IH lays rest f (utf16_decode s :: acc)); cbn [length] in *;
       try lia; try assumption.
     cbn [rev map]. rewrite <- app_assoc. reflexivity.
-Qed.
-
-Lemma seg_decode_table_known_none : forall strs lays,
-  length strs = length lays ->
-  first_some (fun p => known_string (fst p) (snd p)) (combine strs lays) = None ->
-  map seg_decode_str (combine strs lays) = map utf16_decode strs.
-Proof.
-  induction strs as [|s strs IH]; intros [|sl lays] Hlen Hkn; try discriminate; [reflexivity|].
-  cbn [combine first_some fst snd] in Hkn.
-  destruct (known_string s sl) eqn:Hk1; [discriminate|].
-  cbn [combine map]. unfold seg_decode_str at 1. cbn [fst snd]. unfold units.
-  unfold known_string in Hk1. rewrite (seg_decode_all_known_none _ _ Hk1).
-  f_equal. apply IH; [injection Hlen; auto | exact Hkn].
-Qed.
-
-Lemma sst_loop_ok : forall strs lays rest fuel acc,
-  length strs = length lays ->
-  forallb (fun p => legal_string (fst p) (snd p)) (combine strs lays) = true ->
-  first_some (fun p => known_string (fst p) (snd p)) (combine strs lays) = None ->
-  (length strs < fuel)%nat ->
-  sst_loop fuel (len strs) (frags (flat_map str_items_of (combine strs lays) ++ rest)) acc
-  = Ok (rev acc ++ map utf16_decode strs).
-Proof.
-  intros strs lays rest fuel acc Hlen Hleg Hkn Hfuel.
-  rewrite (sst_loop_gen strs lays rest fuel acc Hlen Hleg Hfuel).
-  rewrite (seg_decode_table_known_none strs lays Hlen Hkn). reflexivity.
 Qed.
 
 Fixpoint items_bytes (its : list item) : nat :=
@@ -696,11 +706,13 @@ Proof.
   pose proof (items_bytes_string s sl). injection H as H. specialize (IH lays H). lia.
 Qed.
 
-(* what parse_sst returns on EVERY legal layout (known class included): each string as the
-   concatenation of its separately decoded segments *)
-Theorem sst_model_value : forall strs lay,
+(* C12, main statement: whatever the legal layout — cuts between strings, inside character data
+   with a fresh compression flag (also between the two halves of a surrogate pair), inside
+   rgRun/ExtRst, any mixture of 8- and 16-bit segments — parse_sst returns the stored text of
+   every string *)
+Theorem sst_any_split : forall strs lay,
   legal_layout strs lay = true ->
-  parse_sst (sst_encode strs lay) = Ok (map seg_decode_str (combine strs (lay_strs lay))).
+  parse_sst (sst_encode strs lay) = Ok (map (fun s => utf16_decode (units s)) strs).
 Proof.
   intros strs [total lays] Hleg. unfold legal_layout in Hleg. cbn [lay_strs lay_total] in Hleg.
   repeat (apply andb_true_iff in Hleg; destruct Hleg as [Hleg ?]).
@@ -723,31 +735,15 @@ Proof.
   change (drop 8 (le32 total ++ le32 (len strs) ++ ?x)) with x.
   rewrite pair_eta.
   rewrite <- (app_nil_r its). unfold its.
-  rewrite sst_loop_gen; try assumption.
+  rewrite sst_loop_ok; try assumption.
   - reflexivity.
   - rewrite app_nil_r. fold its. rewrite Htb. cbn [items_bytes].
     pose proof (items_bytes_table strs lays Hleg). fold its in H2. lia.
 Qed.
 
-
-(* C12, main statement: whatever the legal layout — cuts between strings, inside character data
-   with a fresh compression flag, inside rgRun/ExtRst, any mixture of 8- and 16-bit segments —
-   parse_sst returns the stored text of every string, outside the known class *)
-Theorem sst_any_split : forall strs lay,
-  legal_layout strs lay = true -> known_C12 strs lay = None ->
-  parse_sst (sst_encode strs lay) = Ok (map (fun s => utf16_decode (units s)) strs).
-Proof.
-  intros strs lay Hleg Hkn. rewrite (sst_model_value strs lay Hleg).
-  unfold legal_layout in Hleg.
-  repeat (apply andb_true_iff in Hleg; destruct Hleg as [Hleg ?]).
-  apply Nat.eqb_eq in Hleg. unfold known_C12 in Hkn.
-  rewrite (seg_decode_table_known_none strs (lay_strs lay) Hleg Hkn). reflexivity.
-Qed.
-
-(* ------------------------------------------------------------------------------------- *)
-(** * the known class is exact: inside it the text read is never the text stored          *)
-(* ------------------------------------------------------------------------------------- *)
-
+(* the segment-by-segment decoding the code used before it kept one decoder per string differs
+   from the stored text exactly by one extra U+FFFD per surrogate pair cut in two (this was the
+   class CutInsidePair, finding F24) *)
 Lemma low_not_high : forall u, is_low u = true -> is_high u = false.
 Proof. unfold is_high, is_low. intros. lia. Qed.
 
@@ -761,10 +757,6 @@ Proof.
     rewrite last_last in H. exact H.
 Qed.
 
-Lemma ends_high_single : forall a' h, ends_high (a' ++ [h]) = is_high h.
-Proof. intros. unfold ends_high. rewrite last_last. reflexivity. Qed.
-
-(* a cut between the halves of a pair costs exactly one extra character *)
 Lemma decode_cut_length : forall a b, ends_high a && starts_low b = true ->
   length (utf16_decode a ++ utf16_decode b) = S (length (utf16_decode (a ++ b))).
 Proof.
@@ -783,63 +775,6 @@ Proof.
   rewrite !app_length. cbn [length]. lia.
 Qed.
 
-Lemma decode_app_length_le : forall a b,
-  (length (utf16_decode (a ++ b)) <= length (utf16_decode a ++ utf16_decode b))%nat.
-Proof.
-  intros a b. destruct (ends_high a && starts_low b) eqn:E.
-  - rewrite (decode_cut_length _ _ E). lia.
-  - rewrite (decode_app _ _ E). lia.
-Qed.
-
-Lemma seg_decode_all_length_ge : forall cuts us,
-  (length (utf16_decode us) <= length (seg_decode_all us cuts))%nat.
-Proof.
-  induction cuts as [|[n hb] cs IH]; intros us; [cbn; lia|].
-  cbn [seg_decode_all]. rewrite <- (firstn_skipn n us) at 1.
-  pose proof (decode_app_length_le (firstn n us) (skipn n us)) as H.
-  rewrite app_length in *. specialize (IH (skipn n us)). lia.
-Qed.
-
-Lemma seg_decode_all_known_some : forall cuts us c, known_chars us cuts = Some c ->
-  (length (utf16_decode us) < length (seg_decode_all us cuts))%nat.
-Proof.
-  induction cuts as [|[n hb] cs IH]; intros us c Hk; [discriminate|].
-  cbn [known_chars] in Hk. cbn [seg_decode_all]. rewrite app_length.
-  destruct (ends_high (firstn n us) && starts_low (skipn n us)) eqn:Ecut.
-  - pose proof (decode_cut_length _ _ Ecut) as H. rewrite firstn_skipn, app_length in H.
-    pose proof (seg_decode_all_length_ge cs (skipn n us)). lia.
-  - specialize (IH _ _ Hk).
-    rewrite <- (firstn_skipn n us) at 1. rewrite (decode_app _ _ Ecut), app_length. lia.
-Qed.
-
-Lemma seg_decode_table_known_some : forall strs lays c,
-  length strs = length lays ->
-  first_some (fun p => known_string (fst p) (snd p)) (combine strs lays) = Some c ->
-  map seg_decode_str (combine strs lays) <> map utf16_decode strs.
-Proof.
-  induction strs as [|s strs IH]; intros [|sl lays] c Hlen Hkn; try discriminate.
-  cbn [combine first_some fst snd] in Hkn. cbn [combine map].
-  intros Heq. injection Heq as Hhd Htl.
-  destruct (known_string s sl) eqn:Hk1.
-  - unfold known_string in Hk1. pose proof (seg_decode_all_known_some _ _ _ Hk1) as Hlt.
-    unfold seg_decode_str, units in Hhd. cbn [fst snd] in Hhd. rewrite Hhd in Hlt. lia.
-  - apply (IH lays c); [injection Hlen; auto | exact Hkn | exact Htl].
-Qed.
-
-(* every legal layout in the class CutInsidePair is read wrongly: the class is not an
-   over-approximation, and together with sst_any_split it decides the model completely *)
-Theorem known_C12_exact : forall strs lay c,
-  legal_layout strs lay = true -> known_C12 strs lay = Some c ->
-  parse_sst (sst_encode strs lay) <> Ok (map (fun s => utf16_decode (units s)) strs).
-Proof.
-  intros strs lay c Hleg Hkn. rewrite (sst_model_value strs lay Hleg).
-  unfold legal_layout in Hleg.
-  repeat (apply andb_true_iff in Hleg; destruct Hleg as [Hleg ?]).
-  apply Nat.eqb_eq in Hleg. unfold known_C12 in Hkn.
-  intros Heq. injection Heq as Heq.
-  exact (seg_decode_table_known_some strs (lay_strs lay) c Hleg Hkn Heq).
-Qed.
-
 (* ------------------------------------------------------------------------------------- *)
 (** * corollaries: later strings, LABELSST                                                *)
 (* ------------------------------------------------------------------------------------- *)
@@ -847,20 +782,19 @@ Qed.
 (* every string decodes to its own text at its own index, whatever runs, extended blocks and
    cuts the strings before it carry *)
 Corollary later_strings_unaffected : forall strs lay i s,
-  legal_layout strs lay = true -> known_C12 strs lay = None ->
+  legal_layout strs lay = true ->
   nth_error strs i = Some s ->
   exists tbl, parse_sst (sst_encode strs lay) = Ok tbl /\
               length tbl = length strs /\
               nth_error tbl i = Some (utf16_decode (units s)).
 Proof.
-  intros strs lay i s Hl Hk Hi. eexists. split; [apply sst_any_split; assumption|].
+  intros strs lay i s Hl Hi. eexists. split; [apply sst_any_split; assumption|].
   split; [apply map_length|]. apply map_nth_error. exact Hi.
 Qed.
 
 (* the table read does not depend on the layout at all *)
 Corollary layout_irrelevant : forall strs lay lay',
-  legal_layout strs lay = true -> known_C12 strs lay = None ->
-  legal_layout strs lay' = true -> known_C12 strs lay' = None ->
+  legal_layout strs lay = true -> legal_layout strs lay' = true ->
   parse_sst (sst_encode strs lay) = parse_sst (sst_encode strs lay').
 Proof. intros. rewrite !sst_any_split by assumption. reflexivity. Qed.
 
@@ -883,15 +817,15 @@ Proof. intros. subst. apply drop_len_app. Qed.
 (* a LABELSST cell picks the text of the string it refers to (the code yields no cell when that
    string is empty) *)
 Theorem labelsst_resolves : forall strs lay row col ixfe i s,
-  legal_layout strs lay = true -> known_C12 strs lay = None ->
+  legal_layout strs lay = true ->
   i <= 4294967295 ->
   nth_error strs (N.to_nat i) = Some s ->
   exists tbl, parse_sst (sst_encode strs lay) = Ok tbl /\
     parse_label_sst (labelsst_body row col ixfe i) tbl =
     Ok (if is_nil (units s) then None else Some (row, col, utf16_decode (units s))).
 Proof.
-  intros strs lay row col ixfe i s Hl Hk Hi Hs.
-  destruct (later_strings_unaffected strs lay (N.to_nat i) s Hl Hk Hs) as (tbl & Hp & _ & Hn).
+  intros strs lay row col ixfe i s Hl Hi Hs.
+  destruct (later_strings_unaffected strs lay (N.to_nat i) s Hl Hs) as (tbl & Hp & _ & Hn).
   exists tbl. split; [exact Hp|].
   unfold parse_label_sst, labelsst_body.
   replace (len (le16 row ++ le16 col ++ le16 ixfe ++ le32 i) <? 10) with false by reflexivity.
@@ -970,6 +904,8 @@ Theorem sheet_name_ok : forall pos vis typ hb us,
 Proof.
   intros pos vis typ hb us Hpos Hvis Htyp Hl.
   unfold parse_sheet_metadata, boundsheet_body.
+  replace (len (le32 pos ++ [vis; typ] ++ short_xl_string hb us) <? 6) with false
+    by (unfold le32; cbn [app]; rewrite !len_cons; lia).
   rewrite read_u32_le32 by exact Hpos. cbn [obind].
   unfold le32 at 1 2. cbn [app nth_error of_option obind].
   assert (Hland : (2 <? N.land vis 63) = false).
@@ -1109,36 +1045,53 @@ Proof.
   intros st n. unfold skip. destruct (n =? 0); [discriminate|]. apply skip_loop_fuel.
 Qed.
 
-Lemma dbcs_loop_shrinks : forall conts data n hb acc s st',
-  dbcs_loop conts data n hb acc = Ok (s, st') ->
+Lemma dbcs_loop_shrinks : forall conts data n hb ds acc s ds' st',
+  dbcs_loop conts data n hb ds acc = Ok (s, ds', st') ->
   (total_bytes st' <= total_bytes (data, conts))%nat.
 Proof.
-  induction conts as [|c cs IH]; intros data n hb acc s st' H; rewrite dbcs_loop_eq in H;
-    destruct (decode_to data n (Some hb)) as [[l at_] str].
-  - destruct (n - l =? 0); [|discriminate]. injection H as _ <-.
+  induction conts as [|c cs IH]; intros data n hb ds acc s ds' st' H; rewrite dbcs_loop_eq in H;
+    destruct (decode_segment ds data n (Some hb)) as [[[l at_] str] ds1].
+  - destruct (n - l =? 0); [|discriminate]. injection H as _ _ <-.
     rewrite !total_bytes_eq. pose proof (length_drop_le _ at_ data). lia.
   - destruct (n - l =? 0).
-    + injection H as _ <-. rewrite !total_bytes_eq. pose proof (length_drop_le _ at_ data). lia.
+    + injection H as _ _ <-. rewrite !total_bytes_eq. pose proof (length_drop_le _ at_ data). lia.
     + destruct c as [|f c']; [discriminate|]. apply IH in H.
       rewrite !total_bytes_eq in *. cbn [conts_bytes fold_right length]. fold (conts_bytes cs). lia.
 Qed.
-Lemma dbcs_loop_fuel : forall conts data n hb acc, dbcs_loop conts data n hb acc <> OutOfFuel.
+(* the loop ends with Ok or Err: neither fuel nor a panic site is left in it *)
+Lemma dbcs_loop_total : forall conts data n hb ds acc,
+  dbcs_loop conts data n hb ds acc <> OutOfFuel /\ dbcs_loop conts data n hb ds acc <> Panic.
 Proof.
-  induction conts as [|c cs IH]; intros data n hb acc; rewrite dbcs_loop_eq;
-    destruct (decode_to data n (Some hb)) as [[l at_] str];
-    destruct (n - l =? 0); try discriminate.
-  destruct c as [|f c']; [discriminate|]. apply IH.
+  induction conts as [|c cs IH]; intros data n hb ds acc; rewrite dbcs_loop_eq;
+    destruct (decode_segment ds data n (Some hb)) as [[[l at_] str] ds1];
+    destruct (n - l =? 0); try (split; discriminate).
+  destruct c as [|f c']; [split; discriminate|]. apply IH.
 Qed.
 Lemma read_dbcs_shrinks : forall st n hb s st',
   read_dbcs st n hb = Ok (s, st') -> (total_bytes st' <= total_bytes st)%nat.
 Proof.
   intros [d cs] n hb s st' H. unfold read_dbcs in H. cbn [fst snd] in H.
-  destruct (n =? 0); [injection H as _ <-; lia|]. apply (dbcs_loop_shrinks _ _ _ _ _ _ _ H).
+  destruct (n =? 0).
+  - cbn [obind] in H. destruct (decode_segment_last dec_init [] 0 (Some hb)) as [[? ?] ?].
+    injection H as _ <-. lia.
+  - destruct (dbcs_loop cs d n hb dec_init []) as [[[s1 ds1] st1]| | |] eqn:E;
+      cbn [obind] in H; try discriminate.
+    destruct (decode_segment_last ds1 [] 0 (Some hb)) as [[? ?] ?].
+    injection H as _ <-. apply (dbcs_loop_shrinks _ _ _ _ _ _ _ _ _ E).
+Qed.
+Lemma read_dbcs_total : forall st n hb,
+  read_dbcs st n hb <> OutOfFuel /\ read_dbcs st n hb <> Panic.
+Proof.
+  intros st n hb. unfold read_dbcs. destruct (n =? 0).
+  - cbn [obind]. destruct (decode_segment_last dec_init [] 0 (Some hb)) as [[? ?] ?].
+    split; discriminate.
+  - pose proof (dbcs_loop_total (snd st) (fst st) n hb dec_init []) as [H1 H2].
+    destruct (dbcs_loop (snd st) (fst st) n hb dec_init []) as [[[s1 ds1] st1]| | |];
+      cbn [obind]; try congruence; try (split; discriminate).
+    destruct (decode_segment_last ds1 [] 0 (Some hb)) as [[? ?] ?]. split; discriminate.
 Qed.
 Lemma read_dbcs_fuel : forall st n hb, read_dbcs st n hb <> OutOfFuel.
-Proof.
-  intros st n hb. unfold read_dbcs. destruct (n =? 0); [discriminate|]. apply dbcs_loop_fuel.
-Qed.
+Proof. intros. apply read_dbcs_total. Qed.
 
 Lemma enter_string_shrinks : forall st st', enter_string st = Some st' ->
   (total_bytes st' <= total_bytes st)%nat.
@@ -1157,40 +1110,72 @@ Proof.
   injection H as <-. apply length_drop_le.
 Qed.
 
-(* the header takes at least 3 bytes and never needs fuel *)
+(* machine-integer reads on slices that are long enough *)
+Lemma read_u16_total : forall s, 2 <= len s -> exists v, read_u16 s = Ok v.
+Proof.
+  intros [|a [|b r]] H; cbn [read_u16]; eauto; rewrite ?len_cons, ?len_nil in H; lia.
+Qed.
+Lemma read_u32_total : forall s, 4 <= len s -> exists v, read_u32 s = Ok v.
+Proof.
+  intros [|a [|b [|c [|d r]]]] H; cbn [read_u32]; eauto; rewrite ?len_cons, ?len_nil in H; lia.
+Qed.
+Lemma read_i32_total : forall s, 4 <= len s -> exists v, read_i32 s = Ok v.
+Proof.
+  intros s H. unfold read_i32. destruct (read_u32_total s H) as (u & ->). cbn [obind]. eauto.
+Qed.
+Lemma slice_from_total : forall A (s : list A) n, n <= len s -> slice_from s n = Ok (drop n s).
+Proof. intros. unfold slice_from. replace (n <=? len s) with true by lia. reflexivity. Qed.
+Lemma len_drop : forall A n (l : list A), len (drop n l) = len l - n.
+Proof. intros. unfold len, drop. rewrite skipn_length. lia. Qed.
+
+(* the optional cRun / cbExtRst fields: an error or a shorter slice, nothing else *)
+Lemma read_c_run_cases : forall flags data,
+  (exists e, read_c_run flags data = Err e) \/
+  (exists v d, read_c_run flags data = Ok (v, d) /\ (length d <= length data)%nat).
+Proof.
+  intros flags data. unfold read_c_run. destruct (N.testbit flags 3); [|right; eauto].
+  destruct (len data <? 2) eqn:E; [left; eauto|]. right.
+  destruct (read_u16_total data) as (v & ->); [lia|]. cbn [obind].
+  rewrite slice_from_total by lia. cbn [obind]. do 2 eexists. split; [reflexivity|].
+  apply length_drop_le.
+Qed.
+Lemma read_cb_ext_rst_cases : forall flags data,
+  (exists e, read_cb_ext_rst flags data = Err e) \/
+  (exists v d, read_cb_ext_rst flags data = Ok (v, d) /\ (length d <= length data)%nat).
+Proof.
+  intros flags data. unfold read_cb_ext_rst. destruct (N.testbit flags 2); [|right; eauto].
+  destruct (len data <? 4) eqn:E; [left; eauto|]. right.
+  destruct (read_i32_total data) as (v & ->); [lia|]. cbn [obind].
+  rewrite slice_from_total by lia. cbn [obind]. do 2 eexists. split; [reflexivity|].
+  apply length_drop_le.
+Qed.
+
+(* the header of a fragment of at least 3 bytes: an error, or at least 3 bytes consumed *)
+Lemma read_header_cases : forall data, 3 <= len data ->
+  (exists e, read_string_header data = Err e) \/
+  (exists cch hb cr ce data', read_string_header data = Ok (cch, hb, cr, ce, data') /\
+                              (length data' + 3 <= length data)%nat).
+Proof.
+  intros data H3. unfold read_string_header.
+  destruct (read_u16_total data) as (cch & ->); [lia|]. cbn [obind].
+  assert (Hd : (length (drop 3 data) + 3 <= length data)%nat).
+  { unfold drop, len in *. rewrite skipn_length. lia. }
+  set (d3 := drop 3 data) in *.
+  destruct (read_c_run_cases (nth 2 data 0) d3) as [(e & ->) | (v & d5 & -> & H5)];
+    [left; cbn [obind]; eauto|]. cbn [obind].
+  destruct (read_cb_ext_rst_cases (nth 2 data 0) d5) as [(e & ->) | (w & d9 & -> & H9)];
+    [left; cbn [obind]; eauto|]. cbn [obind].
+  right. do 5 eexists. split; [reflexivity|]. lia.
+Qed.
+
 Lemma read_header_shrinks : forall data cch hb cr ce data',
   3 <= len data ->
   read_string_header data = Ok (cch, hb, cr, ce, data') ->
   (length data' + 3 <= length data)%nat.
 Proof.
-  intros data cch hb cr ce data' H3 H. unfold read_string_header in H.
-  destruct (read_u16 data) as [v| | |]; cbn [obind] in H; try discriminate.
-  assert (Hd : (length (drop 3 data) + 3 <= length data)%nat).
-  { unfold drop, len in *. rewrite skipn_length. lia. }
-  set (d3 := drop 3 data) in *.
-  destruct (N.testbit (nth 2 data 0) 3).
-  - destruct (read_u16 d3) as [v1| | |]; cbn [obind] in H; try discriminate.
-    destruct (slice_from d3 2) as [d5| | |] eqn:E5; cbn [obind] in H; try discriminate.
-    apply slice_from_length in E5.
-    destruct (N.testbit (nth 2 data 0) 2).
-    + destruct (read_i32 d5) as [v2| | |]; cbn [obind] in H; try discriminate.
-      destruct (slice_from d5 4) as [d9| | |] eqn:E9; cbn [obind] in H; try discriminate.
-      apply slice_from_length in E9. injection H as _ _ _ _ <-. lia.
-    + cbn [obind] in H. injection H as _ _ _ _ <-. lia.
-  - cbn [obind] in H. destruct (N.testbit (nth 2 data 0) 2).
-    + destruct (read_i32 d3) as [v2| | |]; cbn [obind] in H; try discriminate.
-      destruct (slice_from d3 4) as [d9| | |] eqn:E9; cbn [obind] in H; try discriminate.
-      apply slice_from_length in E9. injection H as _ _ _ _ <-. lia.
-    + cbn [obind] in H. injection H as _ _ _ _ <-. lia.
-Qed.
-
-Lemma read_header_fuel : forall data, read_string_header data <> OutOfFuel.
-Proof.
-  intros data. unfold read_string_header, read_i32, read_u32, read_u16, slice_from.
-  repeat match goal with
-         | |- context [match ?x with _ => _ end] => destruct x; cbn [obind]; try discriminate
-         | |- context [if ?x then _ else _] => destruct x; cbn [obind]; try discriminate
-         end.
+  intros data cch hb cr ce data' H3 H.
+  destruct (read_header_cases data H3) as [(e & He) | (a & b & c & d & x & He & Hl)];
+    rewrite He in H; [discriminate|]. injection H as _ _ _ _ <-. exact Hl.
 Qed.
 
 Lemma read_string_shrinks : forall st s st',
@@ -1213,22 +1198,38 @@ Proof.
   rewrite !total_bytes_eq in *. lia.
 Qed.
 
-Lemma read_string_fuel : forall st, read_rich_extended_string st <> OutOfFuel.
+Lemma skip_loop_total : forall conts data n,
+  skip_loop conts data n <> OutOfFuel /\ skip_loop conts data n <> Panic.
+Proof.
+  induction conts as [|c cs IH]; intros data n; rewrite skip_loop_eq; cbv zeta;
+    destruct (n - N.min n (len data) =? 0); try (split; discriminate). apply IH.
+Qed.
+Lemma skip_total : forall st n, skip st n <> OutOfFuel /\ skip st n <> Panic.
+Proof.
+  intros st n. unfold skip. destruct (n =? 0); [split; discriminate|]. apply skip_loop_total.
+Qed.
+
+(* one string: Ok or Err on every input — no fuel, no panic site left *)
+Lemma read_string_total : forall st,
+  read_rich_extended_string st <> OutOfFuel /\ read_rich_extended_string st <> Panic.
 Proof.
   intros st. unfold read_rich_extended_string.
-  destruct (enter_string st) as [[data conts]|]; [|discriminate].
-  destruct (len data <? 3); [discriminate|].
-  pose proof (read_header_fuel data) as Hh.
-  destruct (read_string_header data) as [[[[[cch hb] cr] ce] data']| | |];
-    cbn [obind]; try discriminate; [|congruence].
-  pose proof (read_dbcs_fuel (data', conts) cch hb) as Hd.
-  destruct (read_dbcs (data', conts) cch hb) as [[s1 st1]| | |]; cbn [obind]; try discriminate;
-    [|congruence].
-  pose proof (skip_fuel st1 (cr * 4)) as H1.
-  destruct (skip st1 (cr * 4)) as [st2| | |]; cbn [obind]; try discriminate; [|congruence].
-  pose proof (skip_fuel st2 ce) as H2.
-  destruct (skip st2 ce) as [st3| | |]; cbn [obind]; try discriminate. congruence.
+  destruct (enter_string st) as [[data conts]|]; [|split; discriminate].
+  destruct (len data <? 3) eqn:E3; [split; discriminate|].
+  destruct (read_header_cases data) as [(e & ->) | (cch & hb & cr & ce & data' & -> & _)];
+    [lia | cbn [obind]; split; discriminate |]. cbn [obind].
+  pose proof (read_dbcs_total (data', conts) cch hb) as [Hd1 Hd2].
+  destruct (read_dbcs (data', conts) cch hb) as [[s1 st1]| | |]; cbn [obind];
+    try congruence; try (split; discriminate).
+  pose proof (skip_total st1 (cr * 4)) as [H1 H1'].
+  destruct (skip st1 (cr * 4)) as [st2| | |]; cbn [obind];
+    try congruence; try (split; discriminate).
+  pose proof (skip_total st2 ce) as [H2 H2'].
+  destruct (skip st2 ce) as [st3| | |]; cbn [obind];
+    try congruence; split; discriminate.
 Qed.
+Lemma read_string_fuel : forall st, read_rich_extended_string st <> OutOfFuel.
+Proof. intros. apply read_string_total. Qed.
 
 Lemma sst_loop_fuel : forall fuel count st acc, (total_bytes st < fuel)%nat ->
   sst_loop fuel count st acc <> OutOfFuel.
@@ -1542,8 +1543,8 @@ Proof.
   cbn [metas wb_sheets map]. cbn [forallb] in Hl. apply andb_true_iff in Hl.
   destruct Hl as [Hs Hl]. unfold legal_sheet in Hs. apply andb_true_iff in Hs.
   destruct Hs as [_ Hcells].
-  assert (Hsl : slice_from stream (len pre) = Ok (sheet_stream sh ++ flat_map sheet_stream shs)).
-  { unfold slice_from. subst stream. rewrite len_app.
+  assert (Hsl : get_from stream (len pre) = Ok (sheet_stream sh ++ flat_map sheet_stream shs)).
+  { unfold get_from. subst stream. rewrite len_app.
     replace (len pre <=? len pre + len (flat_map sheet_stream (sh :: shs))) with true by lia.
     rewrite drop_len_app. reflexivity. }
   rewrite Hsl. cbn [obind].
@@ -1578,10 +1579,10 @@ Proof. destruct cs; reflexivity. Qed.
    cells resolved through the shared-string table read across its CONTINUE records, LABEL cells,
    formula STRING values — are what the writer stored *)
 Theorem wb_strings_ok : forall strs lay shs,
-  legal_workbook strs lay shs = true -> known_C12 strs lay = None ->
+  legal_workbook strs lay shs = true ->
   wb_strings (workbook_stream strs lay shs) = Ok (wb_spec strs shs).
 Proof.
-  intros strs lay shs Hl Hk. unfold legal_workbook in Hl.
+  intros strs lay shs Hl. unfold legal_workbook in Hl.
   apply andb_true_iff in Hl. destruct Hl as [Hl Htot].
   apply andb_true_iff in Hl. destruct Hl as [Hl Hshs].
   apply andb_true_iff in Hl. destruct Hl as [Hl Hconts].
@@ -1614,7 +1615,7 @@ Proof.
     assert (Hne : frame 10 [] ++ S <> []) by (unfold frame, le16; cbn [app]; discriminate).
     rewrite (records_step _ _ _ (next_record_sst st (frame 10 [] ++ S) Hd Hconts Hne Hnc_eof)).
     rewrite wb_globals_sst.
-    rewrite conts_of_opt, pair_eta. unfold st at 1. rewrite (sst_any_split strs lay Hlay Hk). cbn [obind].
+    rewrite conts_of_opt, pair_eta. unfold st at 1. rewrite (sst_any_split strs lay Hlay). cbn [obind].
     rewrite records_plain; [| len_small | exact HncS].
     rewrite wb_globals_eof. reflexivity. }
   rewrite Hglob. cbn [obind].
@@ -1624,26 +1625,255 @@ Proof.
 Qed.
 
 (* ------------------------------------------------------------------------------------- *)
-(** * known classes: witnesses; non-vacuity                                               *)
+(** * totality: no panic site and no fuel exhaustion is reachable, on any input            *)
 (* ------------------------------------------------------------------------------------- *)
 
-(* "a", U+1F600, "b" stored 16-bit with a cut after the lead surrogate *)
+Lemma sst_loop_total : forall fuel count st acc, (total_bytes st < fuel)%nat ->
+  sst_loop fuel count st acc <> OutOfFuel /\ sst_loop fuel count st acc <> Panic.
+Proof.
+  induction fuel as [|f IH]; intros count st acc Hf; [lia|].
+  cbn [sst_loop]. destruct (count =? 0); [split; discriminate|].
+  pose proof (read_string_total st) as [Hr1 Hr2].
+  destruct (read_rich_extended_string st) as [[s st']| | |] eqn:E; cbn [obind];
+    try congruence; try (split; discriminate).
+  apply IH. apply read_string_shrinks in E. lia.
+Qed.
+
+(* parse_sst on ANY record body and ANY list of CONTINUE bodies: never a panic, never out of the
+   fuel it starts with (1 + bytes of the record and its CONTINUE records), and the capacity it
+   reserves before reading is at most a third of those bytes *)
+Theorem no_panic_parse_sst : forall data conts,
+  parse_sst (data, conts) <> Panic /\
+  parse_sst (data, conts) <> OutOfFuel /\
+  3 * sst_capacity_request (data, conts) <= N.of_nat (total_bytes (data, conts)).
+Proof.
+  intros data conts. split; [|split].
+  - unfold parse_sst. destruct (len data <? 8) eqn:E8; [discriminate|].
+    destruct (read_i32_total (drop 4 data)) as (x & ->); [rewrite len_drop; lia|]. cbn [obind].
+    destruct (x <? 0)%Z; [discriminate|]. apply sst_loop_total.
+    rewrite !total_bytes_eq. pose proof (length_drop_le _ 8 data). lia.
+  - apply sst_fuel_suffices.
+  - unfold sst_capacity_request. cbn [fst].
+    destruct (read_i32 (drop 4 data)) as [x| | |]; try lia.
+    destruct ((len data <? 8) || (x <? 0)%Z); lia.
+Qed.
+
+(* the other string readers have no fuel and no panic site at all *)
+Theorem no_panic_short_string : forall data,
+  parse_short_string data <> Panic /\ parse_short_string data <> OutOfFuel.
+Proof.
+  intros data. unfold parse_short_string. destruct (len data <? 2); [split; discriminate|].
+  destruct (decode_to (drop 1 (drop 1 data)) (nth 0 data 0)
+                      (Some (N.odd (nth 0 (drop 1 data) 0)))) as [[? ?] ?].
+  split; discriminate.
+Qed.
+Theorem no_panic_parse_string : forall r,
+  parse_string r <> Panic /\ parse_string r <> OutOfFuel.
+Proof.
+  intros r. unfold parse_string. destruct (len r <? 3) eqn:E; [split; discriminate|].
+  destruct (read_u16_total r) as (v & ->); [lia|]. cbn [obind].
+  destruct (decode_to (drop 3 r) v (Some (N.odd (nth 2 r 0)))) as [[? ?] ?]. split; discriminate.
+Qed.
+Theorem no_panic_parse_label : forall r,
+  parse_label r <> Panic /\ parse_label r <> OutOfFuel.
+Proof.
+  intros r. unfold parse_label. destruct (len r <? 6) eqn:E; [split; discriminate|].
+  destruct (read_u16_total r) as (row & ->); [lia|]. cbn [obind].
+  destruct (read_u16_total (drop 2 r)) as (col & ->); [rewrite len_drop; lia|]. cbn [obind].
+  pose proof (no_panic_parse_string (drop 6 r)) as [H1 H2].
+  destruct (parse_string (drop 6 r)); cbn [obind]; try congruence; split; discriminate.
+Qed.
+Theorem no_panic_parse_label_sst : forall r strings,
+  parse_label_sst r strings <> Panic /\ parse_label_sst r strings <> OutOfFuel.
+Proof.
+  intros r strings. unfold parse_label_sst. destruct (len r <? 10) eqn:E; [split; discriminate|].
+  destruct (read_u16_total r) as (row & ->); [lia|]. cbn [obind].
+  destruct (read_u16_total (drop 2 r)) as (col & ->); [rewrite len_drop; lia|]. cbn [obind].
+  destruct (read_u32_total (drop 6 r)) as (i & ->); [rewrite len_drop; lia|]. cbn [obind].
+  destruct (nth_error strings (N.to_nat i)) as [s|]; [destruct (is_nil s)|]; split; discriminate.
+Qed.
+Lemma nth_error_total : forall (l : bytes) i, N.of_nat i < len l -> exists v, nth_error l i = Some v.
+Proof.
+  intros l i H. destruct (nth_error l i) eqn:E; [eauto|].
+  apply nth_error_None in E. unfold len in H. lia.
+Qed.
+Theorem no_panic_sheet_metadata : forall data,
+  parse_sheet_metadata data <> Panic /\ parse_sheet_metadata data <> OutOfFuel.
+Proof.
+  intros data. unfold parse_sheet_metadata. destruct (len data <? 6) eqn:E; [split; discriminate|].
+  destruct (read_u32_total data) as (pos & ->); [lia|]. cbn [obind].
+  destruct (nth_error_total data 4) as (vis & ->); [lia|]. cbn [of_option obind].
+  destruct (2 <? N.land vis 63); [split; discriminate|].
+  destruct (nth_error_total data 5) as (typ & ->); [lia|]. cbn [of_option obind].
+  destruct (negb ((typ =? 0) || (typ =? 1) || (typ =? 2) || (typ =? 6))); [split; discriminate|].
+  pose proof (no_panic_short_string (drop 6 data)) as [H1 H2].
+  destruct (parse_short_string (drop 6 data)); cbn [obind]; try congruence; split; discriminate.
+Qed.
+
+(* RecordIter: every step ends with a record, an error or the end of the stream *)
+Lemma take_conts_total : forall fuel stream acc, (length stream < fuel)%nat ->
+  take_conts fuel stream acc <> Panic /\ take_conts fuel stream acc <> OutOfFuel.
+Proof.
+  induction fuel as [|f IH]; intros stream acc Hf; [lia|].
+  cbn [take_conts]. destruct ((4 <? len stream) && (u16_at stream 0 =? 60)) eqn:E;
+    [|split; discriminate].
+  destruct (len stream <? u16_at stream 2 + 4) eqn:El; [split; discriminate|].
+  apply IH. apply andb_true_iff in E. destruct E as [E _].
+  unfold drop, len in *. rewrite skipn_length. lia.
+Qed.
+Theorem no_panic_next_record : forall stream,
+  next_record stream <> Some Panic /\ next_record stream <> Some OutOfFuel.
+Proof.
+  intros stream. unfold next_record.
+  destruct (len stream <? 4); [destruct (is_nil stream); split; discriminate|].
+  destruct (len stream <? u16_at stream 2 + 4); [split; discriminate|].
+  set (next := drop (u16_at stream 2 + 4) stream).
+  destruct ((4 <? len next) && (u16_at next 0 =? 60)); [|split; discriminate].
+  pose proof (take_conts_total (S (length next)) next []) as [H1 H2]; [lia|].
+  destruct (take_conts (S (length next)) next []) as [[cs rest]| | |]; cbn [obind];
+    try congruence; split; discriminate.
+Qed.
+Lemma records_fuel_total : forall fuel stream, (length stream < fuel)%nat ->
+  ~ In Panic (records_fuel fuel stream) /\ ~ In OutOfFuel (records_fuel fuel stream).
+Proof.
+  induction fuel as [|f IH]; intros stream Hf; [lia|].
+  cbn [records_fuel]. pose proof (no_panic_next_record stream) as [H1 H2].
+  destruct (next_record stream) as [[[r rest]|e| |]|] eqn:E; try congruence.
+  - apply next_record_shrinks in E. destruct (IH rest) as [I1 I2]; [lia|].
+    split; intros [H|H]; try discriminate; auto.
+  - split; intros [H|[]]; discriminate.
+  - split; intros [].
+Qed.
+(* the records of ANY stream: no panic, and the fuel (1 + length of the stream) suffices *)
+Theorem no_panic_record_iter : forall stream,
+  next_record stream <> Some Panic /\ next_record stream <> Some OutOfFuel /\
+  ~ In Panic (records stream) /\ ~ In OutOfFuel (records stream).
+Proof.
+  intros stream. destruct (no_panic_next_record stream) as [H1 H2].
+  destruct (records_fuel_total (S (length stream)) stream) as [H3 H4]; [lia|].
+  repeat split; assumption.
+Qed.
+
+(* the reduced parse_workbook, on ANY stream *)
+Lemma len_take : forall A n (l : list A), len (take n l) = N.min n (len l).
+Proof. intros. unfold len, take. rewrite firstn_length. lia. Qed.
+
+Lemma wb_globals_total : forall recs sheets strings,
+  ~ In Panic recs -> ~ In OutOfFuel recs ->
+  wb_globals recs sheets strings <> Panic /\ wb_globals recs sheets strings <> OutOfFuel.
+Proof.
+  induction recs as [|r recs IH]; intros sheets strings HP HF; [split; discriminate|].
+  assert (HP' : ~ In Panic recs) by (intros H; apply HP; right; exact H).
+  assert (HF' : ~ In OutOfFuel recs) by (intros H; apply HF; right; exact H).
+  destruct r as [[[t d] c]|e| |]; cbn [wb_globals].
+  - destruct (t =? 47); [split; discriminate|].
+    destruct (t =? 66).
+    { destruct (len d <? 2) eqn:E; [split; discriminate|].
+      destruct (read_u16_total d) as (cp & ->); [lia|]. cbn [obind].
+      destruct (cp =? 1200); [apply IH; assumption | split; discriminate]. }
+    destruct (t =? 2057).
+    { destruct (len d <? 2) eqn:E; [split; discriminate|].
+      destruct (read_u16_total (take 2 d)) as (v & ->); [rewrite len_take; lia|]. cbn [obind].
+      destruct (v =? 1536); [apply IH; assumption | split; discriminate]. }
+    destruct (t =? 133).
+    { pose proof (no_panic_sheet_metadata d) as [H1 H2].
+      destruct (parse_sheet_metadata d); cbn [obind]; try congruence; try (split; discriminate).
+      apply IH; assumption. }
+    destruct (t =? 252).
+    { pose proof (no_panic_parse_sst d (conts_of c)) as (H1 & H2 & _).
+      destruct (parse_sst (d, conts_of c)); cbn [obind]; try congruence;
+        try (split; discriminate).
+      apply IH; assumption. }
+    destruct (t =? 10); [split; discriminate|].
+    match goal with |- context [if ?b then _ else _] => destruct b end;
+      [split; discriminate | apply IH; assumption].
+  - split; discriminate.
+  - exfalso. apply HP. left. reflexivity.
+  - exfalso. apply HF. left. reflexivity.
+Qed.
+
+Lemma wb_sheet_total : forall recs strings fp cells,
+  ~ In Panic recs -> ~ In OutOfFuel recs ->
+  wb_sheet recs strings fp cells <> Panic /\ wb_sheet recs strings fp cells <> OutOfFuel.
+Proof.
+  induction recs as [|r recs IH]; intros strings fp cells HP HF; [split; discriminate|].
+  assert (HP' : ~ In Panic recs) by (intros H; apply HP; right; exact H).
+  assert (HF' : ~ In OutOfFuel recs) by (intros H; apply HF; right; exact H).
+  destruct r as [[[t d] c]|e| |]; cbn [wb_sheet].
+  - destruct (t =? 253).
+    { pose proof (no_panic_parse_label_sst d strings) as [H1 H2].
+      destruct (parse_label_sst d strings); cbn [obind]; try congruence;
+        try (split; discriminate).
+      apply IH; assumption. }
+    destruct (t =? 516).
+    { pose proof (no_panic_parse_label d) as [H1 H2].
+      destruct (parse_label d); cbn [obind]; try congruence; try (split; discriminate).
+      apply IH; assumption. }
+    destruct (t =? 519).
+    { pose proof (no_panic_parse_string d) as [H1 H2].
+      destruct (parse_string d); cbn [obind]; try congruence; try (split; discriminate).
+      apply IH; assumption. }
+    destruct (t =? 6).
+    { destruct (len d <? 20) eqn:E; [split; discriminate|].
+      destruct (formula_is_string_stub d); [|split; discriminate].
+      destruct (read_u16_total d) as (row & ->); [lia|]. cbn [obind].
+      destruct (read_u16_total (drop 2 d)) as (col & ->); [rewrite len_drop; lia|]. cbn [obind].
+      apply IH; assumption. }
+    destruct (t =? 10); [split; discriminate|].
+    match goal with |- context [if ?b then _ else _] => destruct b end;
+      [split; discriminate | apply IH; assumption].
+  - split; discriminate.
+  - exfalso. apply HP. left. reflexivity.
+  - exfalso. apply HF. left. reflexivity.
+Qed.
+
+Lemma wb_sheets_total : forall l stream strings,
+  wb_sheets stream strings l <> Panic /\ wb_sheets stream strings l <> OutOfFuel.
+Proof.
+  induction l as [|[pos name] l IH]; intros stream strings; [split; discriminate|].
+  cbn [wb_sheets]. unfold get_from. destruct (pos <=? len stream); [|split; discriminate].
+  cbn [obind].
+  destruct (no_panic_record_iter (drop pos stream)) as (_ & _ & H3 & H4).
+  pose proof (wb_sheet_total (records (drop pos stream)) strings (0, 0) [] H3 H4) as [H1 H2].
+  destruct (wb_sheet (records (drop pos stream)) strings (0, 0) []); cbn [obind];
+    try congruence; try (split; discriminate).
+  pose proof (IH stream strings) as [I1 I2].
+  destruct (wb_sheets stream strings l); cbn [obind]; try congruence; split; discriminate.
+Qed.
+
+Theorem no_panic_wb_strings : forall stream,
+  wb_strings stream <> Panic /\ wb_strings stream <> OutOfFuel.
+Proof.
+  intros stream. unfold wb_strings.
+  destruct (no_panic_record_iter stream) as (_ & _ & H3 & H4).
+  pose proof (wb_globals_total (records stream) [] [] H3 H4) as [H1 H2].
+  destruct (wb_globals (records stream) [] []) as [[sheets strings]| | |]; cbn [obind];
+    try congruence; try (split; discriminate).
+  apply wb_sheets_total.
+Qed.
+
+(* ------------------------------------------------------------------------------------- *)
+(** * the former class CutInsidePair; non-vacuity                                         *)
+(* ------------------------------------------------------------------------------------- *)
+
+(* "a", U+1F600, "b" stored 16-bit with a cut after the lead surrogate: until read_dbcs kept one
+   decoder per string this read as a U+FFFD U+FFFD b (finding F24); 16-bit then 8-bit after a
+   dangling lead surrogate: one U+FFFD, then the 8-bit text *)
 Definition wit_pair_strs : list ustring := [[97; 55357; 56832; 98]].
 Definition wit_pair_lay : layout :=
   mkLay 1 [mkSL false true [(2%nat, true)] None None []].
-
-Lemma refuted_CutInsidePair :
-  exists strs lay, legal_layout strs lay = true /\ known_C12 strs lay = Some CutInsidePair /\
-    parse_sst (sst_encode strs lay) <> Ok (map (fun s => utf16_decode (units s)) strs).
-Proof.
-  exists wit_pair_strs, wit_pair_lay. repeat split; try (vm_compute; reflexivity).
-  vm_compute. discriminate.
-Qed.
-(* what the code returns on the witness: two replacement characters *)
-Lemma refuted_CutInsidePair_value :
-  parse_sst (sst_encode wit_pair_strs wit_pair_lay) = Ok [[97; 65533; 65533; 98]] /\
-  map utf16_decode wit_pair_strs = [[97; 128512; 98]].
-Proof. split; vm_compute; reflexivity. Qed.
+Lemma former_CutInsidePair_value :
+  legal_layout wit_pair_strs wit_pair_lay = true /\
+  sst_encode wit_pair_strs wit_pair_lay =
+    ([1; 0; 0; 0; 1; 0; 0; 0; 4; 0; 1; 97; 0; 61; 216], [[1; 0; 222; 98; 0]]) /\
+  parse_sst (sst_encode wit_pair_strs wit_pair_lay) = Ok [[97; 128512; 98]] /\
+  parse_sst (sst_encode [[97; 55357; 98]] (mkLay 1 [mkSL false true [(2%nat, false)] None None []]))
+    = Ok [[97; 65533; 98]] /\
+  (* the pair cut by two CONTINUE records with an empty segment between its halves *)
+  parse_sst (sst_encode wit_pair_strs
+               (mkLay 1 [mkSL false true [(2%nat, false); (0%nat, true)] None None []]))
+    = Ok [[97; 128512; 98]].
+Proof. repeat split; vm_compute; reflexivity. Qed.
 
 (* the 3-byte XLUnicodeString of the empty text reads as the empty text (fix 1abac51) *)
 Lemma empty_xl_string_ok :
@@ -1664,7 +1894,7 @@ Definition ex_lay : layout :=
      mkSL false true [] None None [];
      mkSL true true [(1%nat, true); (1%nat, false)] (Some []) None []].
 Lemma example_nonvacuous :
-  legal_layout ex_strs ex_lay = true /\ known_C12 ex_strs ex_lay = None /\
+  legal_layout ex_strs ex_lay = true /\
   length (snd (sst_encode ex_strs ex_lay)) = 9%nat /\
   parse_sst (sst_encode ex_strs ex_lay) =
   Ok [[104; 233; 233; 128512; 122]; []; [65279; 20013; 97]].
